@@ -109,6 +109,11 @@ class Mod:
             self.tree = ast.parse(src)
         except SyntaxError as e:  # pragma: no cover
             raise AnalysisError(f"cannot parse {rel}: {e}")
+        # local names carry no meaning: rename them to the names the rules were written against wherever a local's
+        # defining statements are unchanged (engine/roles.py)
+        from . import roles
+
+        roles.normalise(self.tree, rel)
         self.modname = rel[:-3].replace("/", ".")
         if self.modname.endswith(".__init__"):
             self.modname = self.modname[: -len(".__init__")]
